@@ -85,8 +85,11 @@ func spec_nz(table [][]int, i int, k int) bool {
 //@ loop 4: invariant len(row) == len(table) && len(entry) == len(table)*len(table[0]) && 0 <= maxIndex
 //@ loop 4: invariant forall i2, k int :: 0 <= i2 && i2 < len(table) && perminv(i2) < idx4 && spec_nz(table, i2, k) ==>
 //@     0 <= row[i2]+k && row[i2]+k <= maxIndex && entry[row[i2]+k]
-//@ loop 4: invariant forall i1, k1, i2, k2 int :: 0 <= i1 && i1 < len(table) && perminv(i1) < idx4 && spec_nz(table, i1, k1) &&
-//@     0 <= i2 && i2 < len(table) && perminv(i2) < idx4 && spec_nz(table, i2, k2) && row[i1]+k1 == row[i2]+k2 ==> i1 == i2
+//@ loop 4: invariant forall i1, k1, i2, k2 int :: 0 <= i1 && i1 < len(table) && spec_nz(table, i1, k1) &&
+//@     0 <= i2 && i2 < len(table) && perminv(i2) < idx4 && spec_nz(table, i2, k2) && perminv(i1) < perminv(i2) ==> row[i1]+k1 != row[i2]+k2
+//@ loop 4: after forall i1, k1, i2, k2 int :: 0 <= i1 && i1 < len(table) && spec_nz(table, i1, k1) &&
+//@     0 <= i2 && i2 < len(table) && spec_nz(table, i2, k2) && row[i1]+k1 == row[i2]+k2 ==> i1 == i2
+//@ loop 4: after forall i2, k int :: 0 <= i2 && i2 < len(table) && spec_nz(table, i2, k) ==> 0 <= row[i2]+k && row[i2]+k <= maxIndex
 //@ loop 4: invariant forall p int :: p > maxIndex ==> !entry[p]
 //@ loop 4: invariant idx4 == 0 ==> (forall p int :: !entry[p])
 //@ loop 4: invariant maxIndex < idx4*len(table[0]) || maxIndex == 0
@@ -95,6 +98,8 @@ func spec_nz(table [][]int, i int, k int) bool {
 //@ loop 5: decreases maxIndex + 1 - row[i]
 //@ loop 6: invariant row == before(row)
 //@ loop 6: invariant forall u int :: 0 <= u && u < idx6 ==> !entry[row[i]+rng6[u]]
+//@ loop 7: after forall i1, k1, k2 int :: 0 <= i1 && i1 < len(table) && perminv(i1) < idx4 && spec_nz(table, i1, k1) && spec_nz(table, i, k2) ==> row[i1]+k1 != row[i]+k2
+//@ loop 7: after perminv(i) == idx4 && 0 <= i && i < len(table)
 //@ loop 7: invariant len(entry) == before(len(entry)) && maxIndex >= before(maxIndex)
 //@ loop 7: invariant forall k int :: spec_nz(table, i, k) ==> !before(entry[row[i]+k])
 //@ loop 7: invariant forall u int :: 0 <= u && u < idx7 ==> entry[row[i]+rng7[u]] && row[i]+rng7[u] <= maxIndex
